@@ -143,7 +143,9 @@ CLAIMED["C16"] = dict(
 CLAIMED["C01"] = dict(
     category="proof",
     text="C01_legal_is_the_definition: the boolean legality test evaluated inside Coq on every run of the correspondence and by the monitor at every "
-         "observation point equals the property's five clauses, for all machines and configurations; legality is a property of the active set and is "
+         "observation point equals the property's five clauses, for all machines and configurations; C01_initial_configuration_legal: the configuration "
+         "built by entering the root is legal for EVERY well-formed machine whose compound states declare a non-history initial child, on both "
+         "engines, by induction over the default descent; legality is a property of the active set and is "
          "preserved by snapshot/restore; unhandled events, action lists and aborted transitions keep the configuration; what a transition exits is "
          "confined to active proper descendants of its domain (to the target's region under a parallel domain). The universal invariant is REFUTED "
          "for the code at HEAD by a kernel-checked witness (C01_invariant_refuted = recorded finding F5, transition targeting the machine root). "
